@@ -169,6 +169,19 @@ def gen_cases(ctx):
                 dseed = rng.randrange(1 << 16)
                 for t in (-1, 0, P - 1):
                     cases.append((P, rng.randrange(1 << 30), rng.randrange(8), op, dt, count, t, dseed, tuple(vals)))
+    # MIN / MAX on floating-point types where the operands compare EQUAL but differ in their bits (+0.0 / -0.0): the result
+    # is the bit pattern that the fixed tree over rank order selects (on a tie the accumulator wins), the same on every
+    # rank, for every target and under every schedule - an implementation that folds in arrival order shows here
+    for dt in (3, 4):
+        z = [enc(dt, 0.0), enc(dt, -0.0)]
+        for op in (0, 1):
+            for P in ((2, 3, 5, 9) if ctx.quick else (2, 3, 4, 5, 6, 7, 8, 9, 12, 17)):
+                count = 4
+                vals = [rng.choice(z) for _ in range(P * count)]
+                vals[0], vals[count] = z[0], z[1]                 # ranks 0 and 1 differ in the first item
+                dseed = rng.randrange(1 << 16)
+                for t in [-1, -1, 0, P - 1, P // 2]:
+                    cases.append((P, rng.randrange(1 << 30), rng.randrange(8), op, dt, count, t, dseed, tuple(vals)))
     # LONG buffers with a custom operator whose operand spans three items: the operator must see the buffer as a whole
     # (or at least in pieces that respect its operands); 65538 unsigned = 262152 bytes, just above 256 KiB, and a
     # second length in the megabyte range in the thorough tier
